@@ -134,6 +134,18 @@ def programs():
         ]
     )
     yield "gates-sharing-function", {"g": gg}, [{"e0": ["v", 0]}, {"e0": ["v", 1]}]
+    gs = T.prog(
+        [
+            T.ifelse("gx", ["e0"], "ta", "tb", func_key="R", fname="shared_gate_fn", behav={"py": "e0[1] == 0"}),
+            T.ifelse("gz", ["e0"], "tb", "ta", func_key="R", fname="shared_gate_fn", behav={"py": "e0[1] == 0"}),
+            T.fn("ta", ["e0"], ["ra"]),
+            T.fn("tb", ["e0"], ["rb"]),
+        ]
+    )
+    yield "gates-sharing-function-swapped-branches", {"g": gs}, [{"e0": ["v", 0]}, {"e0": ["v", 1]}]
+    sg1 = T.prog([T.ifelse("gx", ["e0"], "ta", "tb", func_key="R", fname="shared_gate_fn", behav={"py": "e0[1] == 0"}), T.fn("ta", ["e0"], ["ra"]), T.fn("tb", ["e0"], ["rb"])])
+    sg2 = T.prog([T.ifelse("gq", ["e0"], "tb", "ta", func_key="R", fname="shared_gate_fn", behav={"py": "e0[1] == 0"}), T.fn("ta2", ["e0"], ["ra"], name="ta"), T.fn("tb2", ["e0"], ["rb"], name="tb")])
+    yield "swapped-branch-gates-across-graphs", {"g": sg1, "h": sg2}, [{"e0": ["v", 0]}]
 
 
 def cacheable_subsets(progs, tier):
